@@ -143,3 +143,48 @@ theorem C13_connack_first_seq (caps : Caps) (s : Server) (hr : ReachSeq caps s) 
     · exact ⟨fun _ => rfl, fun _ => rfl⟩
 
 end Mochi.Broker
+
+/-! ## Non-vacuity -/
+namespace Mochi.Broker
+open Mochi.Topics
+
+/-- two clients; the authentication hook denies the client id `b` (configured between ops: `ReachSeq.config`) -/
+def c13History : List Op :=
+  [.connect 1 { ver := 5, id := [115] },
+   .connect 2 { ver := 5, id := [99, 49], will := some { topic := [120], payload := [119] } }]
+
+def c13State : Server := { run (init {}) c13History with auth := .deny [98] }
+
+theorem c13State_reach : ReachSeq {} c13State :=
+  (ReachSeq.init.run c13History (by decide) (by decide)).config ⟨rfl, rfl, rfl, rfl, rfl, rfl, rfl, rfl⟩
+
+/-- **a refused CONNECT (bad authentication)**: CONNACK 0x86, close, nothing registered -/
+example :
+    let r := step c13State (.connect 3 { ver := 5, id := [98] })
+    refuseCode (connState c13State 3 { ver := 5, id := [98] }) { ver := 5, id := [98] }
+      (parseConnect c13State 3 { ver := 5, id := [98] }) = some 0x86 ∧
+    r.2 = [.wrote 3 (.connack 5 false 0x86 1024 2 none), .closed 3] ∧ r.1.clients = c13State.clients := by decide
+
+/-- **a take-over**: DISCONNECT 0x8E and close on the old connection 2, then CONNACK 0 on connection 3 -/
+example :
+    let r := step c13State (.connect 3 { ver := 5, id := [99, 49] })
+    r.2.take 3 = [.wrote 2 (.disconnect 5 0x8E), .closed 2, .wrote 3 (.connack 5 false 0 1024 2 none)] ∧
+    writesTo 3 r.2 = [.connack 5 false 0 1024 2 none] := by decide
+
+/-- `C13_connack_first_seq` instantiated for both -/
+example : ∃ ver sp code rm mq seiOut rest,
+    writesTo 3 (step c13State (.connect 3 { ver := 5, id := [98] })).2 = .connack ver sp code rm mq seiOut :: rest ∧
+    (∀ pk ∈ rest, pk.isConnack = false) ∧
+    (code = 0 ↔ refuseCode (connState c13State 3 { ver := 5, id := [98] }) { ver := 5, id := [98] }
+      (parseConnect c13State 3 { ver := 5, id := [98] }) = none) :=
+  (C13_connack_first_seq {} c13State c13State_reach 3 { ver := 5, id := [98] } (by decide)).2.2
+
+example : ∃ c' pre ver sp rm mq seiOut post, c' ≠ 3 ∧ TakeoverOut c' pre ∧
+    (step c13State (.connect 3 { ver := 5, id := [99, 49] })).2 =
+      pre ++ [.wrote 3 (.connack ver sp 0 rm mq seiOut)] ++ post ∧ NoConnack post :=
+  ((C13_connack_first_seq {} c13State c13State_reach 3 { ver := 5, id := [99, 49] } (by decide)).2.1 (by decide)).2
+
+end Mochi.Broker
+
+#print axioms Mochi.Broker.C13_connack_first_seq
+#print axioms Mochi.Broker.c13State_reach
